@@ -66,7 +66,14 @@ func (o *Obligation) Query(models bool) string {
 	if o.Block != nil && !NoSlicing {
 		anc = fv.ancestors(o.Block)
 	}
+	otag := ""
+	if m := propTag.FindStringSubmatch(o.Name[strings.Index(o.Name, "/")+1:]); m != nil {
+		otag = m[1]
+	}
 	for i, a := range fv.asserts[:o.NPre] {
+		if t, ok := fv.assertTag[i]; ok && otag != "" && t != otag {
+			continue
+		}
 		// cone of influence: facts emitted in blocks that cannot precede the obligation's
 		// block are irrelevant (dropping assumptions is always sound)
 		if anc != nil && i < len(fv.assertBlk) && fv.assertBlk[i] >= 0 && !anc[fv.assertBlk[i]] {
